@@ -25,6 +25,10 @@ Parts
                bits at positions from a small set -> exactly k/n, 0 flips -> exactly 0, all flipped
                -> exactly 1; Tx equal to Rx in length and Tx longer by 1..3 bits (n = compared bits);
                every pair of containers (binary_sequence, str, str with separators, list, tuple, ndarrays)
+  ber.flips    both counters on LONG plain sequences (256 .. 70001 bits; thorough up to 2^24+2): the whole ladder of error
+               counts k = 0, 1, 2, 3, 4, 7, 100, 127..129, 255..257, 300, 511..513, 1000, .., 65535..65537, n//2, n-1, n -> exactly
+               k/n, wrong bits evenly spread / at the head / at the tail / at seeded positions; Tx longer than Rx; every pair of
+               containers on 2047 bits.  The same ladder (as far as it fits) is asked on every decoded output of ook.dsp / ppm.dsp
 
 Hardening pass (input classes, see notes/C03.md "Hardening pass"): three "notation" axes in the lattice -
 `bits` (container in which the word is handed to DAC / PPM_ENCODER and later to the counter), `gv` (call form
@@ -257,6 +261,33 @@ def flip_sets(n):
     return out
 
 
+# "k flipped bits" for k beyond a handful (added after seeded wave 4).  The statement says "k/n for a sequence with k flipped bits"
+# without a bound on k; the flip sets above stop at k = 3.  Ladder of error counts: small, around every power of two at which a narrow
+# integer or half-precision accumulator stops being exact (int8 127|128, uint8 255|256, float16 2048|2049, int16 32767|32768,
+# uint16 65535|65536, float32 2^24|2^24+1), a few values in between, and half / all but one / all of the compared bits.
+K_LADDER = (4, 7, 100, 127, 128, 129, 255, 256, 257, 300, 511, 512, 513, 1000, 1023, 1024, 1025, 2047, 2048, 2049, 4096, 10000,
+            32767, 32768, 32769, 65535, 65536, 65537, 2 ** 24 - 1, 2 ** 24, 2 ** 24 + 1)
+FLIP_PATTERNS = ('spread', 'head', 'tail', 'seeded')     # where the k wrong bits sit in the record
+
+
+def flip_ladder(n):
+    """the error counts k > 3 of the ladder that fit in a record of n bits, plus n//2, n-1, n"""
+    return sorted(k for k in set(K_LADDER) | {n // 2, n - 1, n} if 3 < k <= n)
+
+
+def flip_positions(n, k, pattern, seed=0):
+    """k distinct positions in 0..n-1: evenly spread | the first k | the last k | drawn from an own RandomState (never the global
+    generator, which the DSP cases own)"""
+    if pattern == 'spread':
+        return (np.arange(k, dtype=np.int64) * n) // k
+    if pattern == 'head':
+        return np.arange(k)
+    if pattern == 'tail':
+        return np.arange(n - k, n)
+    assert pattern == 'seeded'
+    return np.random.RandomState((int(seed) * 7919 + 31 * n + k) % (2 ** 32)).permutation(n)[:k]
+
+
 # ------------------------------------------------------------------ the link (real blocks only)
 class CallFormError(Exception):
     """a documented alternative call form did not return what its docstring says (reported as a violation, not a crash)"""
@@ -318,7 +349,8 @@ def as_container(bits, form):
     from opticomlib.typing import binary_sequence
     if form == 'u8':
         return bits
-    w = ''.join(map(str, bits.tolist()))
+    if form in ('str', 'str-sep'):
+        w = (np.asarray(bits, dtype=np.uint8) + 48).tobytes().decode()
     if form == 'str':
         return w
     if form == 'str-sep':                        # groups of 4 (last one shorter), separated by ' ' and ', ' in turn
@@ -523,14 +555,17 @@ def is_bs(x):
     return isinstance(x, binary_sequence)
 
 
-def check_counter(fn, name, tx_bits, rx_seq, viol, tag, tx_obj=None, rx_form='bs', rx0=None):
+def check_counter(fn, name, tx_bits, rx_seq, viol, tag, tx_obj=None, rx_form='bs', rx0=None, patterns=None, seed=0):
     """BER_analizer('counter') must be exactly 0 for rx == tx[:n] and exactly k/n for every flip set, n = len(rx) = the number of
     compared bits (= the length of 'the sequence with k flipped bits' of the statement).  tx_bits may be longer than rx (the
     data handed to PPM_ENCODER when its length is not a multiple of log2 M; both counters cut Tx to the received length).
     tx_obj: the object passed as Tx (default: a binary_sequence of tx_bits) - e.g. the very container the user handed to DAC /
     PPM_ENCODER; rx_form: container of the flipped sequences (SEQ_FORMS); rx0: the unflipped received sequence if it is not to
     be passed as the binary_sequence rx_seq.  An exception of the counter is a violation
-    `<name>.ber:raises:<mixed|raw|plain>-containers` (mixed = exactly one of Tx, Rx is a binary_sequence)."""
+    `<name>.ber:raises:<mixed|raw|plain>-containers` (mixed = exactly one of Tx, Rx is a binary_sequence).
+    After the flip sets (k = 1..3) every error count of flip_ladder(n) (4 .. n) is asked, key `<name>.ber:k/n:many-flips*`; the wrong
+    bits sit where `patterns` says (default: 'spread', 'head', 'tail' in rotation over the ladder; the 'seeded' positions follow
+    `seed`)."""
     from opticomlib.typing import binary_sequence
     n = int(np.asarray(rx_seq.data).size)
     tx = binary_sequence(tx_bits.copy()) if tx_obj is None else tx_obj
@@ -564,6 +599,20 @@ def check_counter(fn, name, tx_bits, rx_seq, viol, tag, tx_obj=None, rx_form='bs
         if not (v == len(fs) / n):
             viol.append((f'{name}.ber:k/n{ksfx}', f'{tag}: {len(fs)} flipped bits at {fs} of n={n}{ragged}{forms}: BER_analizer(counter) = {v!r}, '
                          f'expected {len(fs)}/{n} = {len(fs)/n!r}'))
+            break
+    if v is None:
+        return cnt
+    pats = patterns or FLIP_PATTERNS[:3]
+    for i, k in enumerate(flip_ladder(n)):
+        pat = pats[i % len(pats)]
+        f = tx_bits[:n].copy()
+        f[flip_positions(n, k, pat, seed)] ^= 1
+        v = call(as_container(f, rx_form), f'{k} flipped bits')
+        if v is None:
+            break
+        if not (v == k / n):
+            viol.append((f'{name}.ber:k/n:many-flips{ksfx}', f'{tag}: {k} flipped bits ({pat}) of n={n}{ragged}{forms}: BER_analizer(counter) = {v!r}, '
+                         f'expected {k}/{n} = {k/n!r}'))
             break
     return cnt
 
@@ -772,6 +821,36 @@ def ber_case(case):
     return res(viol=viol, obs=(which, word, extra, txform, rxform, longer), nontrivial=True, stats={'ber_calls': n + 2})
 
 
+# ------------------------------------------------------------------ case: BER counters, many flipped bits on long sequences
+def long_bits(n, kind, seed):
+    """a record of n bits: seeded random, or the PRBS7 period (own generator) repeated"""
+    if kind == 'prbs':
+        return np.resize(bits_of(prbs7(127)), n).astype(np.uint8)
+    return np.random.RandomState((int(seed) * 1000003 + 500 + n) % (2 ** 32)).randint(0, 2, n).astype(np.uint8)
+
+
+def flips_case(case):
+    """(module, n, word kind, bits of Tx beyond Rx, Tx container, Rx container, flip pattern, VERIF_SEED): the whole ladder of error
+    counts 0, 1, 2, 3 (flip sets), 4 .. n on one record of n bits, then the complement of the record (-> exactly 1)"""
+    which, n, kind, extra, txform, rxform, pattern, seed = case
+    from opticomlib import ook, ppm
+    from opticomlib.typing import binary_sequence
+    fn = ook.BER_analizer if which == 'ook' else ppm.BER_analizer
+    bits = long_bits(n, kind, seed)
+    txb = np.concatenate([bits, bits_of(extra)]) if extra else bits
+    viol = []
+    tag = f'{which}.BER_analizer n={n} word={kind} tx-extra={extra!r} Tx as {txform}, Rx as {rxform}'
+    tx_obj = as_container(txb.copy(), txform)
+    cnt = check_counter(fn, which, txb, binary_sequence(bits.copy()), viol, tag, tx_obj=tx_obj, rx_form=rxform,
+                        rx0=as_container(bits.copy(), rxform), patterns=(pattern,), seed=seed)
+    if not viol:
+        v = fn('counter', Tx=tx_obj, Rx=as_container((1 - bits).astype(np.uint8), rxform))
+        if not (v == 1):
+            viol.append((f'{which}.ber:k/n:many-flips' + (':tx-longer' if extra else '') + ('' if (txform, rxform) == ('bs', 'bs') else ':containers'),
+                         f'{tag}: the complement of the record as Rx (all {n} compared bits wrong, Tx has {txb.size} bits) -> {v!r}, expected 1'))
+    return res(viol=viol, obs=(which, n, kind, extra, txform, rxform, pattern), nontrivial=True, stats={'ber_calls': cnt + 1})
+
+
 # ------------------------------------------------------------------ driver
 def run(ctx):
     quick = ctx.quick
@@ -817,7 +896,11 @@ def run(ctx):
              f'On every decoded output both BER_analizer(counter) must give '
              f'exactly 0 and exactly k/n (n = len(Rx) = compared bits; Tx = the data handed to the encoder, longer than Rx for ragged '
              f'words) for every flip set of size 1..3 over positions {FLIP_POS}; ber.counter repeats that on plain '
-             f'sequences of length 2..127 with Tx longer than Rx by {TX_EXTRA}')
+             f'sequences of length 2..127 with Tx longer than Rx by {TX_EXTRA}. Many flipped bits: after the flip sets every counter '
+             f'check also asks every error count k of the ladder {K_LADDER} and n//2, n-1, n with 3 < k <= n (wrong bits '
+             f'{FLIP_PATTERNS[:3]} in rotation); ber.flips runs the ladder on seeded / PRBS7-periodic records of '
+             f'{(256, 257, 2047, 2049, 65537, 70001) if quick else "255..131073 and 2^24+2"} bits x both counters x Tx longer by {TX_EXTRA} '
+             f'x flip patterns {FLIP_PATTERNS}, and on 2047 bits for every pair of containers')
     ctx.assume('noise-free means: no noise attached to the optical field and PD(include_noise="ase-only"), which leaves only the '
                'deterministic dark-current offset; link.* cases run under the scripted RNG and report any random draw as a violation')
     ctx.assume('GET_EYE draws from numpy\'s global RNG through KMeans; owned by np.random.seed(s), s from a small seed alphabet, '
@@ -934,3 +1017,24 @@ def run(ctx):
     cases += [(which, w, x, tf, rf) for x in ('', '01') for which in ('ook', 'ppm') for w in cw
               for tf in SEQ_FORMS for rf in SEQ_FORMS if (tf, rf) != ('bs', 'bs')]
     ctx.pmap('ber.counter', ber_case, cases, horizon=30)
+
+    # --- part 6: counters, the whole ladder of error counts (0 .. 3, 4, 7, .., 255, 256, 257, .., n//2, n-1, n) on long records
+    # record lengths: around 2^8, one PRBS11 period and 2^11, beyond 2^16 (thorough: more boundaries, and 2^24 + 2 bits once)
+    flip_lengths = (256, 257, 2047, 2049, 65537, 70001) if quick else (255, 256, 257, 300, 512, 1000, 2047, 2048, 2049, 4097, 8193,
+                                                                       32769, 65535, 65536, 65537, 70001, 131073)
+    cases = [(which, n, kind, x, 'bs', 'bs', pat, seed) for which in ('ook', 'ppm') for n in flip_lengths for kind in ('seeded', 'prbs')
+             for x in TX_EXTRA for pat in FLIP_PATTERNS]
+    # every pair of containers for (Tx, Rx) on 2047 bits, equal lengths and Tx longer; the flip pattern rotates over the pairs in the
+    # quick tier (independent of the tier's other choices, so that the thorough tier, which runs every pattern, contains them)
+    for which in ('ook', 'ppm'):
+        for x in ('', '01'):
+            for ti, tf in enumerate(SEQ_FORMS):
+                for ri, rf in enumerate(SEQ_FORMS):
+                    if (tf, rf) != ('bs', 'bs'):
+                        for pat in ([FLIP_PATTERNS[(ti + ri) % len(FLIP_PATTERNS)]] if quick else FLIP_PATTERNS):
+                            cases.append((which, 2047, 'seeded', x, tf, rf, pat, seed))
+    if not quick:
+        # one record beyond 2^24 bits (a single-precision accumulator stops counting at 2^24), raw uint8 arrays
+        cases += [(which, 2 ** 24 + 2, 'seeded', '', 'u8', 'u8', 'spread', seed) for which in ('ook', 'ppm')]
+    ctx.pmap('ber.flips', flips_case, cases, horizon=120)
+    print(f'[C03] ber.counter/flips done in {time.time()-t0:.1f}s', flush=True)
